@@ -2,3 +2,4 @@
 //! any dicom-rs crate (see Cargo.toml).
 pub mod dict;
 pub mod ds;
+pub mod file;
